@@ -76,8 +76,12 @@ def graph(x, p):
     t2 = pkg_text(gl2, ex2, nl2)
     # (a package in a subdirectory resolves its own require() strings
     # relative to itself: the same files are visible from there)
-    files = {'/w/r/' + sub + 'p1.lua': t1, '/w/r/p2.lua': t2,
-             '/w/r/' + sub + 'p2.lua': t2}
+    # relative to itself): the copy next to p1 differs from the one next to
+    # main.lua, so resolving against the wrong directory is visible
+    t2sub = t2.replace(b'g=2', b'g=22')
+    files = {'/w/r/' + sub + 'p1.lua': t1, '/w/r/p2.lua': t2}
+    if sub:
+        files['/w/r/' + sub + 'p2.lua'] = t2sub
     opened = []
 
     def isfile(path):
@@ -103,19 +107,22 @@ def graph(x, p):
     order = []
     strip = {}
 
-    def visit(name, use_gl):
+    via_sub = {}
+
+    def visit(name, use_gl, from_sub):
         if name in order:
             return
         order.append(name)
         strip[name] = not use_gl
+        via_sub[name] = from_sub
         if name == 'p1' and e_12:
-            visit('p2', False)
+            visit('p2', False, bool(sub))
         if name == 'p2' and e_21:
-            visit('p1', False)
+            visit('p1', False, False)
     if e_m1:
-        visit('p1', ugl)
+        visit('p1', ugl, False)
     if e_m2:
-        visit('p2', False)
+        visit('p2', False, False)
     x.tag('packages=%d' % len(order))
     if not order:
         x.check('without require() the code is the main program',
@@ -128,6 +135,8 @@ def graph(x, p):
             text = pkg_text(gl1, ex1, nl1, with_gl=not strip[name])
         else:
             text = pkg_text(gl2, ex2, nl2, with_gl=not strip[name])
+            if via_sub.get(name):
+                text = text.replace(b'g=2', b'g=22')
         exp += b'package._c["' + key.encode() + b'"]=function()\n' + text + \
             b'\nend\n'
     exp += b''.join(build.REQUIRE_LUA_PREAMBLE_REQUIRE) + main
